@@ -139,7 +139,7 @@ CLAIMED = {
             "DESIGN 7 C16"),
     "C18": ("25 theorems (Lean 4, any linearly ordered field, snapshots of any tree with the root first, runs of any length) about an executable model of the report functions as the code computes them (Backtest.weights / security_weights / positions / herfindahl_index / turnover, StrategyBase.positions / outlays / get_transactions, Result.prices) and of ReplayTransactions: weights = value (notional under a fixed-income root) over the root's; aggregation of same-named securities is a per-name sum, one column per name, invariant under permutation of the members; given the C01 balance identity of a date as hypothesis, aggregated security weights + all strategies' cash fractions = 1 for a non-zero root value; positions aggregate per ticker; the listed quantities of a ticker telescope to its recorded aggregated position on every date of every run, every row is non-zero; listed price = market price + (sum over the securities of that name of bid/offer paid / multiplier) / net quantity, = outlay / (quantity x multiplier) = price +/- half spread for a date's only trade of the ticker (any multiplier, any number of same-named securities); turnover = min(purchases, sales) / root VALUE with outlays aggregated per ticker first, 0 without securities; HHI = sum of squared aggregated weights; Result price series = the root's _prices rows. Replay: replay_reproduces_positions (every run whose replay completes: positions = recorded aggregated positions, composed with `transactions`); replay_day_reproduces + replay_reproduces_partial (induction over dates): with at most one trade per security and date, a non-zero multiplier and a commission that does not change on the spread-inclusive price, replaying the rows listedRow(trade) in the list's order reproduces positions and cash (hence values) after every date, whatever the execution order; partial: for cash/values the rows are tied to get_transactions per row (txnRow_of_single_trade), not composed into one statement about `transactions` of recorded histories. Lean witnesses (decide over Q) of the general replay statement failing (same-date round trip vanishing from the list, price-dependent commission with a spread) and of the three repaired formulas (explicitly named old formulas). Correspondence `report`: whole generated backtests (flat/nested, shared tickers, fixed-income roots with the five security classes, multipliers, commissions, spreads, no-trade runs, same-date round trips, flows) run on the real code; node histories read from the private series, sent to the model as bit patterns; every real report compared cell by cell (so far all bit-identical). Correspondence `replay`: the real replaying backtest's cash/positions/values vs the model of the algo. Monitor written from the property text (numpy + external trade logs of both runs): every clause incl. sum-to-one, cumulated quantities vs recorded positions per ticker and per security node vs executed trades, prices = executed cash / (quantity x multiplier), and a second real backtest replaying the list; a value difference is keyed by its cause read off the cash each (ticker, date) took in the two runs. Known findings: C18/replay-values:round-trip, :split-trades, :spread-and-price-commission.",
             "DESIGN 7 C18"),
-    "C20": ("19 theorems (Lean 4, any linearly ordered field, NaN as Option, every tree / table / number of measures, instruments and dates) about an executable model of UpdateRisk, HedgeRisks, ClosePositionsAfterDates, RollPositionsAfterDates and SelectActive with the engine calls they make (transact into existing / lazy / default children, close under fixed-income and market-value parents): a security's risk is unit x position x multiplier (0 when is_zero(position), NaN cell -> NaN, no column -> 0, missing date raises); a strategy's risk is the sum over its children and, by tree induction with a locality lemma, over all securities below every node; every call succeeds whatever attributes earlier calls of any depth left behind and writes the row of the CURRENT date (the root's clock) of every node at depth < history, leaves deeper nodes' frames alone and keeps earlier rows (update_risk_total, risk_history_depth); the Jacobian handed to numpy is unit risk x instrument multiplier (hedge_jacobian); hedge_zero: k measures, k instruments of arbitrary multipliers, Mathlib matrices, S*Sinv = 1 as run-time-checked certificate, stored risk fresh, no dust => a fresh UpdateRisk of every hedged measure stores exactly 0 (plus the multiplier-1 corollary and a Lean witness of what the pre-repair unscaled matrix left: -810/-270); hedge_pinv_partial for arbitrary multipliers (normal equations, least squares and minimal notionals; partial only in that the four Penrose identities of numpy's pinv are hypotheses, checked at run time); close_after_date and roll_once by induction over any number of later dates of the lifecycle stack (recorded, flat, never returned by SelectActive, never a roll candidate again, provided nothing rolls into the name), roll_moves (sources flat and recorded, factor x position aggregated per target, targets credited once); Lean witnesses of the two remaining known findings (a security past its close date that is not yet a child is re-selected; a zero-priced security is not closed under a market-value parent).  Every tapped call of the real algos inside real stacks (manual setup/update/run loops and bt.Backtest runs on generated trees, time-varying tables, schedules, HedgeRisks(strategy=sibling); ill-formed stream for the raising branches) is re-executed by the model from the real pre-state (positions exact, numpy-dependent hedge notionals 1e-9, whole lifecycle runs through lifecycleRun) and judged by a monitor that recomputes the property text from positions, tables and multipliers (fresh UpdateRisk and independent recomputation, numpy lstsq on the true sensitivity matrix, end-of-day positions on every later date); the witnesses of the three repaired defects (hedge multiplier, history row date, differing history depths) run first as regression cases.",
+    "C20": ("20 theorems (Lean 4, any linearly ordered field, NaN as Option, every tree / table / number of measures, instruments and dates) about an executable model of UpdateRisk, HedgeRisks, ClosePositionsAfterDates, RollPositionsAfterDates and SelectActive with the engine calls they make (transact into existing / lazy / default children, close under fixed-income and market-value parents): a security's risk is unit x position x multiplier (0 when is_zero(position), NaN cell -> NaN, no column -> 0, missing date raises); a strategy's risk is the sum over its children and, by tree induction with a locality lemma, over all securities below every node; every call succeeds whatever attributes earlier calls of any depth left behind and writes the row of the CURRENT date (the root's clock) of every node at depth < history, leaves deeper nodes' frames alone and keeps earlier rows (update_risk_total, risk_history_depth); the Jacobian handed to numpy is unit risk x instrument multiplier (hedge_jacobian); hedge_zero: k measures, k instruments of arbitrary multipliers, Mathlib matrices, S*Sinv = 1 as run-time-checked certificate, stored risk fresh, no dust => a fresh UpdateRisk of every hedged measure stores exactly 0 (plus the multiplier-1 corollary and a Lean witness of what the pre-repair unscaled matrix left: -810/-270); hedge_pinv_partial for arbitrary multipliers (normal equations, least squares and minimal notionals; partial only in that the four Penrose identities of numpy's pinv are hypotheses, checked at run time); close_after_date and roll_once by induction over any number of later dates of the lifecycle stack (recorded, flat, never returned by SelectActive, never a roll candidate again, provided nothing rolls into the name), roll_moves (sources flat and recorded, factor x position aggregated per target, targets credited once), roll_chain (a name that matures in the same call as the names rolling into it ends up holding exactly what they rolled in, computed from the positions before the call, whatever the order of the children); Lean witnesses of the two remaining known findings (a security past its close date that is not yet a child is re-selected; a zero-priced security is not closed under a market-value parent).  Every tapped call of the real algos inside real stacks (manual setup/update/run loops and bt.Backtest runs on generated trees, time-varying tables, schedules, HedgeRisks(strategy=sibling); ill-formed stream for the raising branches) is re-executed by the model from the real pre-state (positions exact, numpy-dependent hedge notionals 1e-9, whole lifecycle runs through lifecycleRun) and judged by a monitor that recomputes the property text from positions, tables and multipliers (fresh UpdateRisk and independent recomputation, numpy lstsq on the true sensitivity matrix, end-of-day positions on every later date); the witnesses of the three repaired defects (hedge multiplier, history row date, differing history depths) run first as regression cases.",
             "DESIGN 7 C20"),
     "C19": ("13 theorems about an executable model of tree assembly (Bt.Wiring: strings, the five security classes with lazy_add, strategies with list/dict children to any depth, children attached later with parent=, use_integer_positions / set_commissions anywhere, setup, update, first use, setup_from_parent; object references modelled relative to the structure), for ALL construction scripts: realised sibling names pairwise distinct and the exact conditions under which _add_children / parent= raise; every member's full_name = >-joined structural path, parent pointer = structural parent, root pointer = top, members = structural pre-order with every node once; use_integer_positions reaches every member and every node of every shadow copy (_paper), set_commissions every strategy incl. those of shadow copies (securities are charged by their parent; the code pushes to strategies only), the integer flag stays uniform over the whole tree, shadow copies included, under every later operation (lazily created and late-attached children, setup, updates); universe columns after setup = declared tickers in the data, in data order (all data columns when constructed without children), then one column per sub-strategy - every sub-strategy has its column right after setup (closed form for well-formed names), an update adds nothing unless a child was attached after setup; a child attached after setup gets the parent's ORIGINAL data, a shadow copy and exactly one new parent column; lazy = eager: after setup, any number of updates and first use, a security taken from the lazy pool is field for field the one constructed up front and the parent's own data are equal, only the sibling position (and shadow copies made at setup) differ (node-local statement at any depth; hypothesis: declared name not shared with a sub-strategy). Correspondence: generated scripts executed on the real objects incl. bt.Backtest and compared token for token with the model (structure, names, full names, parent/root identity, members order, pools, ticker lists, universe columns in order, flags, commission identity per node, shadow copies, now/_needupdate, error or not), ill-formed stream (all duplicate pairs, late duplicates, fixed-income child under a plain parent); eager twins of every script and lazy / eager / lazy_add / dict / children-omitted variants of whole generated backtests compared per node name (positions exact when whole units, otherwise and values/prices 1e-9 relative). Independent monitor from the property text incl. universe sub-strategy column = child price series and settings on lazily created children and shadow copies after a run. Partial: whole-run equality of histories is monitored, not proved (the engine model carries it); security setup errors (coupons) are assumed away. Three defects found by this check are repaired in /repo (eeb6870, 75f3a49, 11b9598; their witnesses run first as regression cases). Known findings: a strategy attached after set_commissions does not inherit the commission function (design decision); flatten of a position-free sub-strategy marks the root stale only when its securities were constructed up front, so lazy and eager runs can differ by ~4e-5 (key assigned only when re-running with those stale flags taken back reproduces the lazy run).",
             "DESIGN 7 C19"),
